@@ -1,6 +1,7 @@
 //! Engine binary `e_io`: one module per property. See /verif/DESIGN.md.
 use vmon::report::parse_args;
 
+mod arrgen;
 mod c25;
 mod c30;
 mod c31;
